@@ -60,6 +60,8 @@ def render_block_itp(b):
 
 
 def _prefix(o):
+    if o >= 100:          # 100 + k = k stars ("some other residue")
+        return "*" * (o - 100)
     return "+" * o if o >= 0 else "-" * (-o)
 
 
@@ -335,6 +337,16 @@ def same(a, b):
     return not diff(a, b)
 
 
+def canon(p):
+    """the projection with every interaction listed in the atom order the .itp writer uses (a-b == b-a, an angle or dihedral read backwards
+    is the same interaction: DESIGN 3); used where one side went through the written file"""
+    if p.get("err"):
+        return p
+    q = dict(p)
+    q["ints"] = sorted([k, min(list(at), list(at)[::-1]), par] for k, at, par in p["ints"])
+    return q
+
+
 # --------------------------------------------------------------------------- one process, several gen_params runs (histories)
 
 def history_main(argv):
@@ -351,8 +363,10 @@ def history_main(argv):
         out = Path(run["out"])
         before = out.read_text() if out.exists() else None
         sys.argv = ["polyply", "gen_params"] + [str(a) for a in run.get("argv", [])]
-        kw = dict(name=run.get("name", "t"), outpath=out, inpath=[Path(p) for p in run["inpath"]], lib=run.get("lib"),
+        kw = dict(name=run.get("name", "t"), outpath=out, lib=run.get("lib"),
                   seq=run.get("seq"), seq_file=Path(run["seq_file"]) if run.get("seq_file") else None)
+        if run.get("inpath"):      # a call that names only a library leaves inpath at its default, as `gen_params(lib=[...])` does
+            kw["inpath"] = [Path(p) for p in run["inpath"]]
         if run.get("mods"):        # otherwise the default of gen_params is used, as a caller without -mods does
             kw["mods"] = run["mods"]
         try:
